@@ -662,7 +662,8 @@ def reentrant_scenarios():
 
 def check_C13():
     ctx = Ctx("C13"); cov = {}
-    broken = proof_part(ctx, "props/C13.v", ["proofs/X_basic.v", "proofs/X_inv.v", "proofs/X_c13.v", "proofs/X_inst.v", "proofs/X_c16.v", "proofs/X_term.v", "proofs/X_fair.v", "proofs/XS_term.v", "XMachine.v", "props/C03.v", "proofs/XS_inv.v", "proofs/XS_lock.v", "proofs/XS_inst.v", "XMachineS.v"], cov)
+    broken = proof_part(ctx, "props/C13.v", ["proofs/X_basic.v", "proofs/X_inv.v", "proofs/X_c13.v", "proofs/X_inst.v", "proofs/X_c16.v", "proofs/X_term.v", "proofs/X_fair.v", "proofs/XS_term.v", "XMachine.v", "props/C03.v", "proofs/XS_inv.v", "proofs/XS_lock.v", "proofs/XS_inst.v", "XMachineS.v", "proofs/CX_product2.v", "proofs/CX_mapof2.v", "proofs/CX_range.v", "proofs/CX_term.v", "proofs/CX_term2.v", "proofs/CX_term_ex.v", "props/C13X.v"], cov)
+    extra_props(ctx, "props/C13X.v", cov, broken)
     n = N(ctx, 1200, 20000)
     from . import solo
     fam = solo.resize_families(ctx.tier, [("Map", None), ("MapOf_int", "default"), ("MapOf_int", "const"), ("MapOf_str", "default")])
